@@ -1,8 +1,174 @@
-"""Loop contracts: cut a loop at its invariant (filled in by the codec tier)."""
+"""Loop contracts: a loop with a registered contract is cut at its head.
+
+A contract is registered by a sidecar module as
+
+    LOOPS = {("someip.sd.SOMEIPDatagramProtocol.datagram_received", 0): {
+                 "havoc": {"data": gen_data, ...},    # gen(vc, name) -> arbitrary value
+                 "inv": inv,                           # inv(vc, vars) -> bool   (optional)
+                 "variant": variant,                   # variant(vc, vars) -> int (optional)
+                 "head": head,                         # head(vc, vars, entering): ghost bookkeeping (optional)
+                 "post": post,                         # post(vc, vars): after one body execution (optional)
+             }}
+
+keyed by the qualified name of the real function and the ordinal of the loop in it (source
+order of `for`/`while` statements, nested ones included).  Semantics, for a `while`:
+
+  1. inv(vars) is checked in the state that reaches the loop          [<fn>.loop<k>.inv_init]
+  2. the havoc variables are replaced by arbitrary values, inv is assumed
+  3. condition true : the body runs once from that arbitrary state; if it falls through,
+                      inv is checked again [inv_step], the variant must have decreased
+                      and be bounded below [variant], and the path ends (cut)
+     condition false: execution continues after the loop
+  An exception, `return` or `break` inside the body leaves the loop from the arbitrary
+  iteration, exactly as in the real program.
+
+`for x in <seq of symbolic length>` is cut the same way: an arbitrary index k with
+0 <= k < len is chosen, x = seq[k]; "vars" additionally holds "$k".
+"""
 from __future__ import annotations
 
-from .engine import OutsideSubset
+import ast
+
+import z3
+
+from .engine import OutsideSubset, PathAbort, VCError
+from .objects import FuncV
+from .values import DictV, ListV, SBool, SeqV, SInt, int_term, mk_int, zint
+
+
+def loop_nodes(fnode):
+    """for/while statements of a function in source order (not descending into nested defs)"""
+    out = []
+
+    def visit(n):
+        for c in ast.iter_child_nodes(n):
+            if isinstance(c, (ast.FunctionDef, ast.AsyncFunctionDef, ast.Lambda, ast.ClassDef)):
+                continue
+            if isinstance(c, (ast.For, ast.While)):
+                out.append(c)
+            visit(c)
+
+    visit(fnode)
+    return out
+
+
+def register_loops(I, loops: DictV):
+    for key, spec in loops.pairs:
+        qual, ordinal = key
+        f = I.world.funcs_by_qualname.get(qual)
+        if f is None:
+            raise VCError(f"loop contract for unknown function {qual}")
+        nodes = loop_nodes(f.node)
+        if ordinal >= len(nodes):
+            # the loop the contract speaks about is gone: the function can no longer be
+            # verified deductively (bounded stand-in takes over), see Interp.call_function
+            I.world.broken_loops[qual] = f"loop contract {qual}#{ordinal} cannot be attached: the function has only {len(nodes)} loops"
+            continue
+        if not isinstance(spec, DictV):
+            raise VCError("loop contract must be a dict")
+        d = {k: v for k, v in spec.pairs}
+        d["name"] = f"{qual.split('.', 2)[-1]}.loop{ordinal}"
+        I.world.loopspecs[id(nodes[ordinal])] = d
+
+
+def _vars_dict(I, env, extra=None):
+    d = DictV()
+    for k, v in env.vars.items():
+        if not k.startswith("$"):
+            d.pairs.append([k, v])
+    for k, v in (extra or {}).items():
+        d.pairs.append([k, v])
+    return d
+
+
+def _call_bool(I, fn, args):
+    r = I.call(fn, args, {}, None)
+    if isinstance(r, SBool):
+        return r.t
+    return bool(I.truthy(r))
 
 
 def cut_loop(I, node, env, spec):
-    raise OutsideSubset("loop contracts are not implemented yet")
+    from .interp import BreakSig, ContinueSig
+
+    ctx = I.ctx
+    vc = I.ghost.vc
+    name = spec["name"]
+    where = I.where(node)
+    inv = spec.get("inv")
+    variant = spec.get("variant")
+    head = spec.get("head")
+    havoc = spec.get("havoc")
+    extra = {}
+
+    is_for = isinstance(node, ast.For)
+    seq = None
+    if is_for:
+        seq = I.eval(node.iter, env)
+
+    if inv is not None:
+        ctx.check(_call_bool(I, inv, [vc, _vars_dict(I, env, {"$iter": seq} if is_for else None)]), f"{name}.inv_init", where)
+
+    if isinstance(havoc, DictV):
+        for vname, gen in havoc.pairs:
+            env.assign(vname, I.call(gen, [vc, ctx.fresh_name(f"{name}.{vname}")], {}, None))
+
+    if is_for:
+        n = I.lib.length(I, seq, node)
+        k = ctx.fresh_int(f"{name}.k")
+        ctx.assume(k >= 0)
+        extra = {"$k": SInt(k), "$iter": seq}
+        cond = ctx.decide(k < zint(int_term(n)))
+    else:
+        if inv is not None:
+            c = _call_bool(I, inv, [vc, _vars_dict(I, env)])
+            ctx.assume(c)
+            if not ctx.feasible():
+                raise PathAbort()
+        cond = I.truthy(I.eval(node.test, env), node)
+
+    if is_for and inv is not None:
+        c = _call_bool(I, inv, [vc, _vars_dict(I, env, extra)])
+        ctx.assume(c)
+        if not ctx.feasible():
+            raise PathAbort()
+
+    if not cond:
+        # loop finished (for: k == len, i.e. every element has been processed)
+        if is_for:
+            ctx.assume(extra["$k"].t == zint(int_term(n)))
+        if head is not None:
+            I.call(head, [vc, _vars_dict(I, env, extra), False], {}, None)
+        I.exec_block(node.orelse, env)
+        return
+
+    if is_for:
+        x = I.lib.getitem(I, seq, extra["$k"], node)
+        I.assign_target(node.target, x, env)
+    if head is not None:
+        I.call(head, [vc, _vars_dict(I, env, extra), True], {}, None)
+    v0 = None
+    if variant is not None:
+        v0 = I.call(variant, [vc, _vars_dict(I, env, extra)], {}, None)
+    try:
+        I.exec_block(node.body, env)
+    except BreakSig:
+        return
+    except ContinueSig:
+        pass
+    if is_for:
+        extra = dict(extra)
+        extra["$k"] = mk_int(zint(int_term(extra["$k"])) + 1)
+    post = spec.get("post")
+    if post is not None:
+        I.call(post, [vc, _vars_dict(I, env, extra)], {}, None)
+    if inv is not None:
+        ctx.check(_call_bool(I, inv, [vc, _vars_dict(I, env, extra)]), f"{name}.inv_step", where)
+    if variant is not None:
+        v1 = I.call(variant, [vc, _vars_dict(I, env, extra)], {}, None)
+        t0, t1 = zint(int_term(v0)), zint(int_term(v1))
+        ctx.check(z3.And(t1 < t0, t0 >= 0) if not (isinstance(t0, int) and isinstance(t1, int)) else (t1 < t0 and t0 >= 0), f"{name}.variant", where)
+    ctx.cover(f"{name}.iteration")
+    from .interp import CutSig
+
+    raise CutSig(name)
